@@ -3,7 +3,11 @@ from common import T_COMMON
 CFG = dict(
     theorems=["stl_full", "stl_prefix_rejected", "splat_prefix", "splat_prefix_read", "spz_prefix", "spz_complete",
               "ply_header_cut", "ply_binary_full", "ply_binary_prefix_rejected", "ply_ascii_full", "ply_ascii_prefix",
-              "pts_full", "pts_prefix"],
+              "pts_full", "pts_prefix",
+              "no_placeholder_stl", "no_placeholder_splat", "no_placeholder_spz", "no_placeholder_ply_binary",
+              "reader_steps_linear_splat", "reader_steps_linear_arrays", "reader_steps_linear_ascii_verts",
+              "reader_steps_linear_ascii_faces", "reader_steps_linear_pts", "scanLines_length",
+              "PolyVerif.Readers.ptsPoint_restriction"],
     harness_files=["c15.go"],
     streams=[dict(name="c14", n=dict(quick=6, thorough=60), timeout=dict(quick=900, thorough=3000))],
     trusted=T_COMMON + ["compress/gzip delivers a prefix of the decompressed stream and then an error (SPZ cut points are taken in the compressed stream; the model is applied to what gzip delivered)",
